@@ -1,5 +1,22 @@
 (* C13 — shared sub-expressions are evaluated at most once between invalidations (C13_statement in proofs/MemoTheorems.v). *)
-From Grule Require Import Base Values Syntax EngineAbs Facts Eval Refinement MemoTheorems.
+From Grule Require Import Base Values Syntax EngineAbs Facts Eval Refinement MemoTheorems Potential CallCount CallCountExamples.
 Theorem C13 : forall rules meth panics_inside mutating, C13_statement rules meth panics_inside mutating.
 Proof. exact C13_proved. Qed.
 Print Assumptions C13.
+
+(* the same over a whole Execute call (proofs/CallCount.v): a counted method M that occurs in the rule set with one text
+   a0 = recv0.M(args0) - in any number of rules, inside any surrounding expressions - runs at most once, plus once per
+   invalidation event for a0 among the statements of the rules the cycle records show as executed (an assignment whose
+   reset set holds a variable occurring in a0's snapshot, or a Forget / Changed call); from any state of the instance,
+   for every entry list, budget, flag, cancellation point and iteration order.  cnt is the call counter the
+   correspondence compares with the counters of the harness's fact library on every engine case. *)
+Theorem C13_run : C13_run_statement.
+Proof. exact C13_run_proved. Qed.
+Print Assumptions C13_run.
+(* met by a parsed, running rule set, and tight on it: 7 cycles x 3 evaluations, 3 invalidation events, 4 calls *)
+Theorem C13_run_example : forall fuel c order u es sf recs o,
+  execute estate (rule_cond cc_vars Methods.fact_meth Methods.fact_panics_inside cc_rules) (rule_act cc_vars Methods.fact_meth Methods.fact_panics_inside cc_rules)
+          reset_all fuel c order u es = (sf, recs, o) ->
+  (cnt "Sum" (s_user sf) <= cnt "Sum" u + 1 + recs_cost (rule_cost cc_vars "Sum" cc_recv cc_args cc_rules) recs)%Z.
+Proof. exact cc_bound. Qed.
+Print Assumptions C13_run_example.
